@@ -7,6 +7,7 @@
 
 #![allow(dead_code)]
 mod layers;
+mod netcase;
 mod nets;
 mod tensors;
 mod training;
@@ -76,6 +77,8 @@ fn dispatch(group: &str, case: &Value, rep: &mut util::Report, rng: &mut util::R
         "arith" => tensors::replay_arith(case, rep, rng),
         "layer" => layers::replay_layer(case, rep),
         "training" => training::replay_training(case, rep, rng),
+        "validate" => training::replay_validate(case, rep, rng),
+        "net" => netcase::replay_net(case, rep),
         _ => panic!("unknown group {}", group),
     }
 }
